@@ -246,5 +246,34 @@ func TestEchConfigCases(t *testing.T) {
 			}
 		}
 	}()
+	// the list length is a 16-bit field: a list that does not fit must be refused, not wrapped
+	for _, n := range []int{215, 216, 217, 300} {
+		one := encECHConfig(7, 0x20, bytes.Repeat([]byte{7}, 32), [][2]uint16{{1, 1}}, 30, bytes.Repeat([]byte("n"), 250))
+		var cfgs []ech.Config
+		total := 0
+		for i := 0; i < n; i++ {
+			cfgs = append(cfgs, one)
+			total += len(one)
+		}
+		list, err := func() (l []byte, err error) {
+			defer func() {
+				if p := recover(); p != nil {
+					err = fmt.Errorf("panic: %v", p)
+				}
+			}()
+			return ech.ConfigList(cfgs)
+		}()
+		nStruct++
+		switch {
+		case total <= 65535 && (err != nil || len(list) != total+2):
+			bad++
+			w.Write(Ev{"kind": "overflow", "node": n, "diff": fmt.Sprintf("a %d-byte list of %d configs: err=%v len=%d", total, n, err, len(list))})
+		case total > 65535 && err == nil:
+			if specs, perr := ech.ParseConfigList(list); perr != nil || len(specs) != n {
+				bad++
+				w.Write(Ev{"kind": "overflow", "node": n, "diff": fmt.Sprintf("ConfigList of %d configs (%d bytes, more than a 16-bit length can hold) returned %d bytes without error; parsing it back gives %d configs, err=%v", n, total, len(list), len(specs), perr)})
+			}
+		}
+	}
 	w.Write(Ev{"summary": true, "cases": len(cases), "interop": nInter, "structural": nStruct, "bad": bad})
 }
